@@ -136,6 +136,8 @@ def parse_template(text, tmpl_name):
             f = [x.strip() for x in s[len("//@type "):].split(" :: ")]
             d = {"file": f[0], "kind": f[1], "name": f[2], "opts": f[3:], "tmpl": tmpl_name, "lineno": i + 1}
             segs.append(("type", d))
+        elif s.startswith("//@tagged "):
+            buf.append(l)
         elif s.startswith("//@"):
             raise GenError("%s:%d: stray directive %s" % (tmpl_name, i + 1, s))
         else:
